@@ -3,18 +3,27 @@
    Anchors: perfutil/component.py:108-302 (component_post_render: deque of PostRenderQueueItem,
    html_parts_by_component_id, component_renderer_cache, child_component_attrs),
    dependencies.py:246-302 (set_component_attrs_for_js_and_css -> set_html_attributes with
-   watch_on_attribute="djc-render-id"), component.py:1018 (gen_id), 1137-1187, 1208-1269 (renderer).
+   watch_on_attribute="djc-render-id"), component.py:1026 (gen_id), 1043-1051 (parent_id from the context key),
+   1190-1208, 1244-1290 (renderer), slots.py:543-549, 599-618 (which context a fill is rendered with),
+   components/dynamic.py:131-157 (inner component rendered from on_render_before with the INPUT context).
 
    Three layers, definitions only (proofs in PostRender/Proofs.v):
-   1. programs (`tpl`, `prog`) and `expand`: what Django's template rendering does with elements,
-      text, {% component %} (plain or through "dynamic"), the default {% slot %} / implicit fill and
-      {% for %}; the result is the instance tree (`item`): every component instance with its render id
-      and the fragment its template produced, child instances standing where their placeholders are.
+   1. programs (`tpl`, `prog`) and `expand`: what Django's template rendering does with elements, text,
+      {% component %} (plain or through "dynamic") with named fills, {% slot %} (two names, default content, slots
+      inside fills and defaults), {% for %}, {% if %} and a component rendered from Python (Component.render()
+      called while the surrounding template is rendered); the result is the instance tree (`item`): every component
+      instance with its render id and the fragment its template produced.  A component tag met with a context that
+      carries a parent component id is a DEFERRED child (`IComp`: a placeholder stands where it was); a component
+      met with a context WITHOUT a parent component (page level; fill content of a page-level tag in "isolated"
+      mode; Component.render() from Python) is a complete ROOT RUN of component_post_render, executed
+      re-entrantly while the surrounding template renders (`IRoot`: its finished HTML stands where it was).
       Ids come from a counter (the harness patches the id generator to a counter).
-   2. M-model `post_render`: transliteration of the deferred-render queue, on flat token lists
-      (the real code works on strings and finds the placeholders with a regex).
+   2. M-model `post_render`: transliteration of the deferred-render queue, on flat token lists (the real code works
+      on strings and finds the placeholders with a regex).  Nested root runs work on the SAME two process-global
+      tables as the run they interrupt.
    3. S-model `inline` / `inlT`: recursive inlining with inherited root attributes.
-   Only the `data-djc-id-<id>` attributes are modelled; an element is (tag, list of ids it carries). *)
+   Only the `data-djc-id-<id>` attributes are modelled; an element is (tag, list of ids it carries).  The order of
+   the attributes inside one tag is not modelled (the comparison sorts them): the model lists inherited ids first. *)
 From DJC Require Import Lib.Base.
 
 (* ---------- association-list helpers (dict semantics: one visible binding per key) ---------- *)
@@ -32,7 +41,8 @@ End Tab.
 Inductive item :=
 | IElem (tag : N) (kids : list item)
 | IText
-| IComp (id : N) (body : list item).     (* an instance: its render id and its own fragment *)
+| IComp (id : N) (body : list item)      (* a deferred instance: its render id and its own fragment *)
+| IRoot (id : N) (body : list item).     (* an instance rendered by a re-entrant root run *)
 
 (* tokens of serialised HTML; PhTok = <template djc-render-id="id" ...ids...></template> *)
 Inductive tok :=
@@ -47,6 +57,7 @@ Fixpoint ninst_item (it : item) : nat :=
   | IElem _ kids => (fix go (l : list item) : nat := match l with [] => O | x :: r => ninst_item x + go r end) kids
   | IText => O
   | IComp _ body => S ((fix go (l : list item) : nat := match l with [] => O | x :: r => ninst_item x + go r end) body)
+  | IRoot _ body => S ((fix go (l : list item) : nat := match l with [] => O | x :: r => ninst_item x + go r end) body)
   end.
 Definition ninst (its : list item) : nat :=
   (fix go (l : list item) : nat := match l with [] => O | x :: r => ninst_item x + go r end) its.
@@ -56,45 +67,25 @@ Fixpoint ids_item (it : item) : list N :=
   | IElem _ kids => (fix go (l : list item) : list N := match l with [] => [] | x :: r => ids_item x ++ go r end) kids
   | IText => []
   | IComp c body => c :: (fix go (l : list item) : list N := match l with [] => [] | x :: r => ids_item x ++ go r end) body
+  | IRoot c body => c :: (fix go (l : list item) : list N := match l with [] => [] | x :: r => ids_item x ++ go r end) body
   end.
 Definition ids (its : list item) : list N :=
   (fix go (l : list item) : list N := match l with [] => [] | x :: r => ids_item x ++ go r end) its.
 
-(* ---------- set_html_attributes + the placeholder a nested component leaves behind ---------- *)
-(* `flat A its`: serialisation of a fragment whose top-level elements (and top-level placeholders)
-   receive the attribute list A; everything below an element receives nothing. *)
-Fixpoint flat_item (A : list N) (it : item) : list tok :=
+(* instances that the queue of the enclosing run has to process (those inside a re-entrant root are not its business) *)
+Fixpoint ndef_item (it : item) : nat :=
   match it with
-  | IElem t kids =>
-      Open t A :: (fix go (l : list item) : list tok := match l with [] => [] | x :: r => flat_item [] x ++ go r end) kids
-               ++ [Close t]
-  | IText => [Txt]
-  | IComp c _ => [PhTok c A]
+  | IElem _ kids => (fix go (l : list item) : nat := match l with [] => O | x :: r => ndef_item x + go r end) kids
+  | IText => O
+  | IComp _ body => S ((fix go (l : list item) : nat := match l with [] => O | x :: r => ndef_item x + go r end) body)
+  | IRoot _ _ => O
   end.
-Definition flat (A : list N) (its : list item) : list tok :=
-  (fix go (l : list item) : list tok := match l with [] => [] | x :: r => flat_item A x ++ go r end) its.
-
-(* the dictionary returned for watch_on_attribute: placeholder id -> attributes set on it *)
-Fixpoint ph_attrs_item (A : list N) (it : item) : list (N * list N) :=
-  match it with
-  | IElem _ kids => (fix go (l : list item) := match l with [] => [] | x :: r => ph_attrs_item [] x ++ go r end) kids
-  | IText => []
-  | IComp c _ => [(c, A)]
-  end.
-Definition ph_attrs (A : list N) (its : list item) : list (N * list N) :=
-  (fix go (l : list item) := match l with [] => [] | x :: r => ph_attrs_item A x ++ go r end) its.
-
-(* renderers registered (component_renderer_cache[child] = ...) while the fragment's template runs *)
-Fixpoint ph_bodies_item (it : item) : list (N * list item) :=
-  match it with
-  | IElem _ kids => (fix go (l : list item) := match l with [] => [] | x :: r => ph_bodies_item x ++ go r end) kids
-  | IText => []
-  | IComp c b => [(c, b)]
-  end.
-Definition ph_bodies (its : list item) : list (N * list item) :=
-  (fix go (l : list item) := match l with [] => [] | x :: r => ph_bodies_item x ++ go r end) its.
+Definition ndef (its : list item) : nat :=
+  (fix go (l : list item) : nat := match l with [] => O | x :: r => ndef_item x + go r end) its.
 
 (* ---------- S-model: inlining ---------- *)
+(* an instance is an instance: whether it was rendered deferred or by a re-entrant root run makes no difference
+   to what the property says about it *)
 Fixpoint inline_item (A : list N) (it : item) : list tok :=
   match it with
   | IElem t kids =>
@@ -102,6 +93,8 @@ Fixpoint inline_item (A : list N) (it : item) : list tok :=
                ++ [Close t]
   | IText => [Txt]
   | IComp c body =>
+      (fix go (l : list item) : list tok := match l with [] => [] | x :: r => inline_item (A ++ [c]) x ++ go r end) body
+  | IRoot c body =>
       (fix go (l : list item) : list tok := match l with [] => [] | x :: r => inline_item (A ++ [c]) x ++ go r end) body
   end.
 Definition inline (A : list N) (its : list item) : list tok :=
@@ -116,6 +109,8 @@ Fixpoint inlT_item (A : list N) (it : item) : list hnode :=
       [HElem t A ((fix go (l : list item) : list hnode := match l with [] => [] | x :: r => inlT_item [] x ++ go r end) kids)]
   | IText => [HText]
   | IComp c body =>
+      (fix go (l : list item) : list hnode := match l with [] => [] | x :: r => inlT_item (A ++ [c]) x ++ go r end) body
+  | IRoot c body =>
       (fix go (l : list item) : list hnode := match l with [] => [] | x :: r => inlT_item (A ++ [c]) x ++ go r end) body
   end.
 Definition inlT (A : list N) (its : list item) : list hnode :=
@@ -150,6 +145,9 @@ Fixpoint outputs_item (c : N) (A : list N) (it : item) : list (list hnode) :=
   | IComp c' body =>
       (if N.eqb c c' then [inlT_item A it] else [])
       ++ (fix go (l : list item) := match l with [] => [] | x :: r => outputs_item c (A ++ [c']) x ++ go r end) body
+  | IRoot c' body =>
+      (if N.eqb c c' then [inlT_item A it] else [])
+      ++ (fix go (l : list item) := match l with [] => [] | x :: r => outputs_item c (A ++ [c']) x ++ go r end) body
   end.
 Definition outputs (c : N) (A : list N) (its : list item) : list (list hnode) :=
   (fix go (l : list item) := match l with [] => [] | x :: r => outputs_item c A x ++ go r end) its.
@@ -161,6 +159,44 @@ Fixpoint chain_item (c : N) (cs : list N) (body : list item) : item :=
 (* every top-level element of a document carries all ids of A *)
 Definition root_ok (A : list N) (h : hnode) : Prop :=
   match h with HElem _ a _ => incl A a | HText => True end.
+
+(* ---------- what a rendered fragment looks like (specification side of the renderer) ---------- *)
+(* `flat A its`: serialisation of a fragment after set_html_attributes put the attribute list A on its top-level
+   elements and top-level placeholders; everything below an element receives nothing; the output of a
+   re-entrant root run is finished HTML (already inlined) whose top-level elements receive A as well. *)
+Fixpoint flat_item (A : list N) (it : item) : list tok :=
+  match it with
+  | IElem t kids =>
+      Open t A :: (fix go (l : list item) : list tok := match l with [] => [] | x :: r => flat_item [] x ++ go r end) kids
+               ++ [Close t]
+  | IText => [Txt]
+  | IComp c _ => [PhTok c A]
+  | IRoot c body => inline (A ++ [c]) body
+  end.
+Definition flat (A : list N) (its : list item) : list tok :=
+  (fix go (l : list item) : list tok := match l with [] => [] | x :: r => flat_item A x ++ go r end) its.
+
+(* the dictionary returned for watch_on_attribute: placeholder id -> attributes set on it *)
+Fixpoint ph_attrs_item (A : list N) (it : item) : list (N * list N) :=
+  match it with
+  | IElem _ kids => (fix go (l : list item) := match l with [] => [] | x :: r => ph_attrs_item [] x ++ go r end) kids
+  | IText => []
+  | IComp c _ => [(c, A)]
+  | IRoot _ _ => []
+  end.
+Definition ph_attrs (A : list N) (its : list item) : list (N * list N) :=
+  (fix go (l : list item) := match l with [] => [] | x :: r => ph_attrs_item A x ++ go r end) its.
+
+(* renderers registered (component_renderer_cache[child] = ...) while the fragment's template runs *)
+Fixpoint ph_bodies_item (it : item) : list (N * list item) :=
+  match it with
+  | IElem _ kids => (fix go (l : list item) := match l with [] => [] | x :: r => ph_bodies_item x ++ go r end) kids
+  | IText => []
+  | IComp c b => [(c, b)]
+  | IRoot _ _ => []
+  end.
+Definition ph_bodies (its : list item) : list (N * list item) :=
+  (fix go (l : list item) := match l with [] => [] | x :: r => ph_bodies_item x ++ go r end) its.
 
 (* ---------- M-model: component_post_render ---------- *)
 Record qitem := { q_before : list tok; q_child : option N; q_parent : option N; q_grand : option N }.
@@ -177,6 +213,8 @@ Inductive err := ERuntimeParentNone | EKeyRenderer.
 Inductive res (A : Type) := Done (a : A) | Failed (e : err) | OutOfFuel.
 Arguments Done {A}. Arguments Failed {A}. Arguments OutOfFuel {A}.
 
+Notation tables := (list (N * list item) * list (N * list N))%type (only parsing).
+
 (* the finditer loop: split a fragment at its placeholders *)
 Fixpoint split_go (c : N) (p : option N) (acc : list tok) (ts : list tok) : list qitem :=
   match ts with
@@ -189,76 +227,144 @@ Fixpoint split_go (c : N) (p : option N) (acc : list tok) (ts : list tok) : list
 Definition parts_append (k : N) (x : list tok) (ps : list (N * list tok)) : list (N * list tok) :=
   aset k (aget [] k ps ++ x) ps.
 
-Definition step (s : st) : st + err :=
-  match queue s with
-  | [] => inl s
-  | it :: q =>
-    match q_child it with
-    | None =>
-        match q_parent it with
-        | None => inr ERuntimeParentNone
-        | Some p =>
-            let html := aget [] p (parts s) ++ q_before it in      (* pop(parent, []) ; append ; join ; callback = identity *)
-            let parts1 := aremove p (parts s) in
-            match q_grand it with
-            | Some g => inl {| queue := q; parts := parts_append g html parts1; content := content s;
-                               rend := rend s; cattrs := cattrs s |}
-            | None => inl {| queue := q; parts := parts1; content := content s ++ html;
-                             rend := rend s; cattrs := cattrs s |}
-            end
-        end
-    | Some c =>
-        let parts0 :=
-          match q_before it with
-          | [] => inl (parts s)
-          | _ :: _ => match q_parent it with
-                      | None => inr ERuntimeParentNone
-                      | Some p => inl (parts_append p (q_before it) (parts s))
-                      end
-          end in
-        match parts0 with
-        | inr e => inr e
-        | inl parts1 =>
-          match alookup c (rend s) with
-          | None => inr EKeyRenderer
-          | Some body =>
-              let rend1 := aremove c (rend s) in
-              let inherited := match alookup c (cattrs s) with Some l => l | None => [] end in   (* pop(child, None); falsy -> [] *)
-              let cattrs1 := aremove c (cattrs s) in
-              let A := inherited ++ [c] in
-              let rend2 := aupdate (ph_bodies body) rend1 in            (* children registered while the template renders *)
-              let html := flat A body in                                (* set_html_attributes *)
-              let cattrs2 := aupdate (ph_attrs A body) cattrs1 in       (* child_component_attrs.update(...) *)
-              inl {| queue := split_go c (q_parent it) [] html ++ q;    (* extendleft(reversed(parts_to_process)) *)
-                     parts := parts1; content := content s; rend := rend2; cattrs := cattrs2 |}
-          end
-        end
-    end
+(* set_html_attributes on serialised HTML: the attributes go onto every element and placeholder at nesting
+   depth 0 (d = number of currently open elements) *)
+Fixpoint set_attrs (A : list N) (d : nat) (ts : list tok) : list tok :=
+  match ts with
+  | [] => []
+  | Open t a :: r => Open t (match d with O => A ++ a | S _ => a end) :: set_attrs A (S d) r
+  | Close t :: r => Close t :: set_attrs A (pred d) r
+  | Txt :: r => Txt :: set_attrs A d r
+  | PhTok g a :: r => PhTok g (match d with O => A ++ a | S _ => a end) :: set_attrs A d r
   end.
 
-Fixpoint run (fuel : nat) (s : st) : res st :=
-  match queue s with
-  | [] => Done s
-  | _ :: _ => match fuel with
-              | O => OutOfFuel
-              | S f => match step s with inl s' => run f s' | inr e => Failed e end
+(* ... and the attributes of every placeholder, reported back for watch_on_attribute *)
+Fixpoint watched (ts : list tok) : list (N * list N) :=
+  match ts with
+  | [] => []
+  | PhTok g a :: r => (g, a) :: watched r
+  | _ :: r => watched r
+  end.
+
+(* template.render(context) of an instance's template, in document order: a nested component with a parent
+   registers its renderer and leaves a placeholder; a component without a parent is a complete root run
+   (`nest`), which reads and writes the same two global tables and returns finished HTML *)
+Section Render.
+  Variable nest : tables -> N -> list item -> res (list tok * tables).
+  Fixpoint render_item (tb : tables) (it : item) : res (list tok * tables) :=
+    match it with
+    | IElem t kids =>
+        match (fix go (tb : tables) (l : list item) : res (list tok * tables) :=
+                 match l with
+                 | [] => Done ([], tb)
+                 | x :: r => match render_item tb x with
+                             | Done (a, tb1) => match go tb1 r with
+                                                | Done (b, tb2) => Done (a ++ b, tb2)
+                                                | Failed e => Failed e | OutOfFuel => OutOfFuel end
+                             | Failed e => Failed e | OutOfFuel => OutOfFuel end
+                 end) tb kids with
+        | Done (k, tb1) => Done (Open t [] :: k ++ [Close t], tb1)
+        | Failed e => Failed e | OutOfFuel => OutOfFuel
+        end
+    | IText => Done ([Txt], tb)
+    | IComp g b => Done ([PhTok g []], (aset g b (fst tb), snd tb))   (* component_renderer_cache[g] = ... ; placeholder *)
+    | IRoot r b => nest tb r b
+    end.
+  Definition render_tpl (tb : tables) (its : list item) : res (list tok * tables) :=
+    (fix go (tb : tables) (l : list item) : res (list tok * tables) :=
+       match l with
+       | [] => Done ([], tb)
+       | x :: r => match render_item tb x with
+                   | Done (a, tb1) => match go tb1 r with
+                                      | Done (b, tb2) => Done (a ++ b, tb2)
+                                      | Failed e => Failed e | OutOfFuel => OutOfFuel end
+                   | Failed e => Failed e | OutOfFuel => OutOfFuel end
+       end) tb its.
+
+  (* one iteration of the while loop *)
+  Definition step (s : st) : res st :=
+    match queue s with
+    | [] => Done s
+    | it :: q =>
+      match q_child it with
+      | None =>
+          match q_parent it with
+          | None => Failed ERuntimeParentNone
+          | Some p =>
+              let html := aget [] p (parts s) ++ q_before it in      (* pop(parent, []) ; append ; join ; callback = identity *)
+              let parts1 := aremove p (parts s) in
+              match q_grand it with
+              | Some g => Done {| queue := q; parts := parts_append g html parts1; content := content s;
+                                  rend := rend s; cattrs := cattrs s |}
+              | None => Done {| queue := q; parts := parts1; content := content s ++ html;
+                                rend := rend s; cattrs := cattrs s |}
               end
-  end.
-
-Notation tables := (list (N * list item) * list (N * list N))%type (only parsing).
+          end
+      | Some c =>
+          let parts0 :=
+            match q_before it with
+            | [] => inl (parts s)
+            | _ :: _ => match q_parent it with
+                        | None => inr ERuntimeParentNone
+                        | Some p => inl (parts_append p (q_before it) (parts s))
+                        end
+            end in
+          match parts0 with
+          | inr e => Failed e
+          | inl parts1 =>
+            match alookup c (rend s) with
+            | None => Failed EKeyRenderer
+            | Some body =>
+                let rend1 := aremove c (rend s) in                                     (* component_renderer_cache.pop(child) *)
+                let inherited := match alookup c (cattrs s) with Some l => l | None => [] end in   (* pop(child, None); falsy -> [] *)
+                let cattrs1 := aremove c (cattrs s) in
+                let A := inherited ++ [c] in
+                (* the renderer: template.render (children register, re-entrant root runs happen), then set_html_attributes *)
+                match render_tpl (rend1, cattrs1) body with
+                | Done (raw, (rend2, cattrs2)) =>
+                    let html := set_attrs A 0 raw in
+                    let cattrs3 := aupdate (watched html) cattrs2 in                   (* child_component_attrs.update(...) *)
+                    Done {| queue := split_go c (q_parent it) [] html ++ q;            (* extendleft(reversed(parts_to_process)) *)
+                            parts := parts1; content := content s; rend := rend2; cattrs := cattrs3 |}
+                | Failed e => Failed e
+                | OutOfFuel => OutOfFuel
+                end
+            end
+          end
+      end
+    end.
+End Render.
 
 Definition init_state (tb : tables) (c : N) (body : list item) : st :=
   {| queue := [ {| q_before := []; q_child := Some c; q_parent := None; q_grand := None |} ];
      parts := []; content := [];
      rend := aset c body (fst tb); cattrs := snd tb |}.
 
-(* a root component: returns the HTML and the process-global tables it leaves behind *)
-Definition post_render (fuel : nat) (tb : tables) (c : N) (body : list item) : res (list tok * tables) :=
-  match run fuel (init_state tb c body) with
+Definition finish (r : res st) : res (list tok * tables) :=
+  match r with
   | Done s => Done (content s, (rend s, cattrs s))
   | Failed e => Failed e
   | OutOfFuel => OutOfFuel
   end.
+
+(* the while loop.  `fuel` bounds the iterations of this run and is handed on (minus what was used so far) to the
+   root runs that start re-entrantly during one of its iterations *)
+Fixpoint run (fuel : nat) (s : st) : res st :=
+  match queue s with
+  | [] => Done s
+  | _ :: _ => match fuel with
+              | O => OutOfFuel
+              | S f => match step (fun tb c body => finish (run f (init_state tb c body))) s with
+                       | Done s' => run f s'
+                       | Failed e => Failed e
+                       | OutOfFuel => OutOfFuel
+                       end
+              end
+  end.
+
+(* a root component: returns the HTML and the process-global tables it leaves behind *)
+Definition post_render (fuel : nat) (tb : tables) (c : N) (body : list item) : res (list tok * tables) :=
+  finish (run fuel (init_state tb c body)).
 
 (* a page: Django renders page-level nodes in place; every page-level component is a root run *)
 Fixpoint page_item (tb : tables) (it : item) : res (list tok * tables) :=
@@ -278,6 +384,7 @@ Fixpoint page_item (tb : tables) (it : item) : res (list tok * tables) :=
       end
   | IText => Done ([Txt], tb)
   | IComp c body => post_render (2 * ninst_item it) tb c body
+  | IRoot c body => post_render (2 * ninst_item it) tb c body
   end.
 Definition page_render (tb : tables) (its : list item) : res (list tok * tables) :=
   (fix go (tb : tables) (l : list item) : res (list tok * tables) :=
@@ -294,17 +401,20 @@ Definition page_render (tb : tables) (its : list item) : res (list tok * tables)
 Inductive tpl :=
 | TElem (tag : N) (kids : list tpl)
 | TText
-| TComp (name : N) (dyn : bool) (fill : list tpl)   (* body of the tag = implicit default fill; [] = no fill *)
-| TSlot (dflt : list tpl)                           (* {% slot "content" default %}dflt{% endslot %} *)
-| TRep (n : nat) (body : list tpl).                 (* {% for %} over n items *)
+| TComp (name : N) (dyn : bool) (fills : list (N * list tpl))   (* {% fill slot %}body{% endfill %} per entry; [] = no fill *)
+| TSlot (name : N) (dflt : list tpl)                            (* {% slot name %}dflt{% endslot %} *)
+| TRep (n : nat) (body : list tpl)                              (* {% for %} over n items *)
+| TIf (c : bool) (body : list tpl)                              (* {% if %} *)
+| TPy (name : N).                                               (* {{ v }}, v = Comp.render() evaluated from Python right there *)
 
-Record prog := { lib : list (N * list tpl); page : list tpl }.
+(* context_behavior: iso = true is "isolated", false is "django" *)
+Record prog := { lib : list (N * list tpl); page : list tpl; iso : bool }.
 
-(* the fill visible to the slots of the template being rendered: its body and the fill that was
-   visible where that body was written *)
-Inductive env := ENone | EFill (body : list tpl) (outer : env).
+(* the fills visible to the slots of the template being rendered, the fills that were visible where those fills
+   were written, and whether the context at that place carried a parent component id *)
+Inductive env := ENone | EFill (fills : list (N * list tpl)) (outer : env) (keyed : bool).
 
-Inductive xres := XOk (its : list item) (next : N) | XFuel | XNotRegistered.
+Inductive xres := XOk (its : list item) (next : N) | XFuel | XNotRegistered | XSlotOutsideComponent.
 
 Fixpoint seqM {A} (f : A -> N -> xres) (l : list A) (nx : N) : xres :=
   match l with
@@ -316,39 +426,65 @@ Fixpoint seqM {A} (f : A -> N -> xres) (l : list A) (nx : N) : xres :=
               | e => e end
   end.
 
-Fixpoint expand (fuel : nat) (lb : list (N * list tpl)) (e : env) (t : tpl) (nx : N) : xres :=
+(* an instance met with (keyed = true) / without a parent component id in the context *)
+Definition mk_inst (keyed : bool) (c : N) (body : list item) : item :=
+  if keyed then IComp c body else IRoot c body.
+
+(* `keyed`: does the context the node is rendered with carry a parent component id *)
+Fixpoint expand (fuel : nat) (lb : list (N * list tpl)) (isolated : bool) (e : env) (keyed : bool) (t : tpl) (nx : N) : xres :=
   match fuel with
   | O => XFuel
   | S f =>
     match t with
-    | TElem tag kids => match seqM (expand f lb e) kids nx with
+    | TElem tag kids => match seqM (expand f lb isolated e keyed) kids nx with
                         | XOk k n1 => XOk [IElem tag k] n1
                         | x => x end
     | TText => XOk [IText] nx
-    | TComp name dyn fill =>
+    | TComp name dyn fills =>
         match alookup name lb with
         | None => XNotRegistered
         | Some body =>
-            let e' := match fill with [] => ENone | _ :: _ => EFill fill e end in
+            let e' := match fills with [] => ENone | _ :: _ => EFill fills e keyed end in
             if dyn then
-              (* DynamicComponent: an instance of its own whose whole output is the inner instance *)
-              match seqM (expand f lb e') body (nx + 2) with
-              | XOk k n1 => XOk [IComp nx [IComp (nx + 1) k]] n1
+              (* DynamicComponent: an instance of its own whose whole output is the inner instance, which it renders
+                 from on_render_before with the context its own tag was given *)
+              match seqM (expand f lb isolated e' true) body (nx + 2) with
+              | XOk k n1 => XOk [mk_inst keyed nx [mk_inst keyed (nx + 1) k]] n1
               | x => x end
             else
-              match seqM (expand f lb e') body (nx + 1) with
-              | XOk k n1 => XOk [IComp nx k] n1
+              match seqM (expand f lb isolated e' true) body (nx + 1) with
+              | XOk k n1 => XOk [mk_inst keyed nx k] n1
               | x => x end
         end
-    | TSlot dflt => match e with
-                    | EFill b eo => seqM (expand f lb eo) b nx
-                    | ENone => seqM (expand f lb e) dflt nx
-                    end
-    | TRep n body => seqM (fun _ : unit => seqM (expand f lb e) body) (repeat tt n) nx
+    | TSlot name dflt =>
+        if keyed then
+          match e with
+          | EFill fills eo kf =>
+              match alookup name fills with
+              | Some b =>
+                  (* "isolated": the fill is rendered with the context of the place where it was written;
+                     "django": with the slot's context (the id of the fill's author, if any, replaces the key) *)
+                  seqM (expand f lb isolated eo (if isolated then kf else true)) b nx
+              | None => seqM (expand f lb isolated e keyed) dflt nx
+              end
+          | ENone => seqM (expand f lb isolated e keyed) dflt nx
+          end
+        else XSlotOutsideComponent
+    | TRep n body => seqM (fun _ : unit => seqM (expand f lb isolated e keyed) body) (repeat tt n) nx
+    | TIf c body => if c then seqM (expand f lb isolated e keyed) body nx else XOk [] nx
+    | TPy name =>
+        match alookup name lb with
+        | None => XNotRegistered
+        | Some body =>
+            match seqM (expand f lb isolated ENone true) body (nx + 1) with
+            | XOk k n1 => XOk [IRoot nx k] n1
+            | x => x end
+        end
     end
   end.
 
-Definition expand_page (fuel : nat) (p : prog) : xres := seqM (expand fuel (lib p) ENone) (page p) 0%N.
+Definition expand_page (fuel : nat) (p : prog) : xres :=
+  seqM (expand fuel (lib p) (iso p) ENone false) (page p) 0%N.
 
 (* ---------- correspondence ---------- *)
 (* observed document: the element structure of the final HTML as tokens; ids are numbered canonically
@@ -385,36 +521,40 @@ Definition tok_eqb (a b : tok) : bool :=
 
 Definition no_txt (ts : list tok) : list tok := filter (fun t => match t with Txt => false | _ => true end) ts.
 
-(* case = (expansion fuel, program, observed element tokens with canonical ids, number of instances observed) *)
-Definition c14_case := (N * prog * list tok * N)%type.
+(* number of re-entrant root runs below the page level (instances rendered without a parent although a
+   component's template was being rendered) *)
+Fixpoint nreent_item (inside : bool) (it : item) : nat :=
+  match it with
+  | IElem _ kids => (fix go (l : list item) : nat := match l with [] => O | x :: r => nreent_item inside x + go r end) kids
+  | IText => O
+  | IComp _ body => (fix go (l : list item) : nat := match l with [] => O | x :: r => nreent_item true x + go r end) body
+  | IRoot _ body => (if inside then 1 else 0)
+                    + (fix go (l : list item) : nat := match l with [] => O | x :: r => nreent_item true x + go r end) body
+  end.
+Definition nreent (its : list item) : nat :=
+  (fix go (l : list item) : nat := match l with [] => O | x :: r => nreent_item false x + go r end) its.
 
-Definition model_doc (fuel : N) (p : prog) : option (list tok * nat) :=
+(* case = (expansion fuel, program, observed element tokens with canonical ids, number of instances observed,
+           number of instances observed to start as a root while another instance's template was being rendered) *)
+Definition c14_case := (N * prog * list tok * N * N)%type.
+
+Definition model_doc (fuel : N) (p : prog) : option (list tok * nat * nat) :=
   match expand_page (N.to_nat fuel) p with
   | XOk its _ =>
       match page_render ([], []) its with
       | Done (ts, (r, ca)) =>
           (* the run must also leave the process-global tables empty *)
-          match r, ca with [], [] => Some (ts, ninst its) | _, _ => None end
+          match r, ca with [], [] => Some (ts, ninst its, nreent its) | _, _ => None end
       | _ => None
       end
   | _ => None
   end.
 
 Definition check_c14 (c : c14_case) : bool :=
-  let '(fuel, p, obs, n) := c in
+  let '(fuel, p, obs, n, nr) := c in
   match model_doc fuel p with
-  | Some (ts, k) => list_eqb tok_eqb (canon (no_txt ts)) obs && N.eqb (N.of_nat k) n
+  | Some (ts, k, kr) => list_eqb tok_eqb (canon (no_txt ts)) obs && N.eqb (N.of_nat k) n && N.eqb (N.of_nat kr) nr
   | None => false
-  end.
-
-(* second check: the instance tree is observed directly (fragments recorded per instance), the queue
-   model runs on it.  case = (instance forest with observed ids, observed element tokens, raw ids) *)
-Definition c14_tree_case := (list item * list tok)%type.
-Definition check_c14_tree (c : c14_tree_case) : bool :=
-  let '(its, obs) := c in
-  match page_render ([], []) its with
-  | Done (ts, ([], [])) => list_eqb tok_eqb (no_txt ts) obs && list_eqb tok_eqb (no_txt (inline [] its)) obs
-  | _ => false
   end.
 
 (* ---------- string level: recognising a placeholder and reading its id ---------- *)
